@@ -482,9 +482,9 @@ impl Property for C01Uni {
     type Case = ChanCase;
     fn part(&self) -> &'static str { "uni-delivery-sched" }
     fn strategy(&self, _tier: Tier) -> BoxedStrategy<ChanCase> {
-        case_strategy(Gen { kinds: &UNI_KINDS, max_streams: &[1, 2, 4], buffers: &[2, 4, 8], max_producers: 3, max_ops: 4, max_consumers: 3, retry: true, fresh_wakers: false, origins: true, prefill: true, ..Default::default() })
+        case_strategy(Gen { kinds: &UNI_KINDS, max_streams: &[1, 2, 4, 8, 16], buffers: &[2, 4, 8, 16, 64], max_producers: 3, max_ops: 4, max_consumers: 3, retry: true, fresh_wakers: false, origins: true, prefill: true, ..Default::default() })
     }
-    fn decode(&self, u: &mut arbitrary::Unstructured<'_>) -> Option<ChanCase> { crate::props::uni::decode_chan(u, &Gen { kinds: &UNI_KINDS, max_streams: &[1, 2, 4], buffers: &[2, 4, 8], max_producers: 3, max_ops: 4, max_consumers: 3, retry: true, fresh_wakers: false, origins: true, prefill: true, ..Default::default() }) }
+    fn decode(&self, u: &mut arbitrary::Unstructured<'_>) -> Option<ChanCase> { crate::props::uni::decode_chan(u, &Gen { kinds: &UNI_KINDS, max_streams: &[1, 2, 4, 8, 16], buffers: &[2, 4, 8, 16, 64], max_producers: 3, max_ops: 4, max_consumers: 3, retry: true, fresh_wakers: false, origins: true, prefill: true, ..Default::default() }) }
     fn cases(&self, tier: Tier) -> u32 { match tier { Tier::Quick => 6_000, Tier::Thorough => 150_000 } }
     fn run(&self, case: &ChanCase) -> RunReport {
         let run = execute(case, Epilogue { drain: true, ..Default::default() });
@@ -639,9 +639,9 @@ impl Property for C03Multi {
     type Case = ChanCase;
     fn part(&self) -> &'static str { "multi-fanout-sched" }
     fn strategy(&self, _tier: Tier) -> BoxedStrategy<ChanCase> {
-        case_strategy(Gen { kinds: &MULTI_KINDS, max_streams: &[1, 2, 4], buffers: &[2, 4, 8], max_producers: 3, max_ops: 3, max_consumers: 3, retry: true, fresh_wakers: false, origins: true, prefill: true, ..Default::default() })
+        case_strategy(Gen { kinds: &MULTI_KINDS, max_streams: &[1, 2, 4, 8, 16], buffers: &[2, 4, 8, 16, 64], max_producers: 3, max_ops: 3, max_consumers: 3, retry: true, fresh_wakers: false, origins: true, prefill: true, ..Default::default() })
     }
-    fn decode(&self, u: &mut arbitrary::Unstructured<'_>) -> Option<ChanCase> { crate::props::uni::decode_chan(u, &Gen { kinds: &MULTI_KINDS, max_streams: &[1, 2, 4], buffers: &[2, 4, 8], max_producers: 3, max_ops: 3, max_consumers: 3, retry: true, fresh_wakers: false, origins: true, prefill: true, ..Default::default() }) }
+    fn decode(&self, u: &mut arbitrary::Unstructured<'_>) -> Option<ChanCase> { crate::props::uni::decode_chan(u, &Gen { kinds: &MULTI_KINDS, max_streams: &[1, 2, 4, 8, 16], buffers: &[2, 4, 8, 16, 64], max_producers: 3, max_ops: 3, max_consumers: 3, retry: true, fresh_wakers: false, origins: true, prefill: true, ..Default::default() }) }
     fn cases(&self, tier: Tier) -> u32 { match tier { Tier::Quick => 6_000, Tier::Thorough => 120_000 } }
     fn run(&self, case: &ChanCase) -> RunReport {
         let run = execute(case, Epilogue { drain: true, ..Default::default() });
